@@ -389,6 +389,8 @@ type recFieldRep struct{ goName, goType, proj string }
 var recReps = []*recRep{
 	// Model/DTerm.v: Record dpred := { dp_name : N; dp_terms : list dterm }
 	{"Predicate", "dpred", "Build_dpred", []recFieldRep{{"Name", "String", "dp_name"}, {"Terms", "[]Term", "dp_terms"}}},
+	// Model/DTerm.v: Record drule := { dr_head : dpred; dr_body : list dpred; dr_exprs : list dexpr }
+	{"Rule", "drule", "Build_drule", []recFieldRep{{"Head", "Predicate", "dr_head"}, {"Body", "[]Predicate", "dr_body"}, {"Expressions", "[]Expression", "dr_exprs"}}},
 }
 
 func recFor(name string) *recRep {
